@@ -242,6 +242,9 @@ func TestVerifC13(t *testing.T) {
 						rep.bad("harness:state-not-reached", "%s: the call returned before the context ended (%v): the wait state was not reached", name, gotErr)
 					}
 					endAt := time.Now()
+					// (a client that answers an ended context by spinning keeps virtual time from advancing: the scenario would never end)
+					verifsim.ArmStallVerdict("cancel-ignored:"+st.name, fmt.Sprintf("%s: after its context ended (%s) the call neither returned nor blocked: "+
+						"the client spins without looking at the context", name, kind))
 					if kind == "cancel" {
 						cancel()
 					} else {
@@ -255,6 +258,7 @@ func TestVerifC13(t *testing.T) {
 						otherCancel()
 						synctest.Wait()
 					}
+					verifsim.DisarmStallVerdict()
 					mu.Lock()
 					r, e, at := returned, gotErr, retAt
 					br, bok := batchRes, batchOK
